@@ -1,6 +1,7 @@
 import NibabelModel.Model.C13
 import NibabelModel.Lemmas.C13
 import NibabelModel.Lemmas.C13_Cor
+import NibabelModel.Lemmas.C13_Ref
 /-!
 Props/C13 — the image data cache and its aliases follow the documented model.
 
@@ -25,7 +26,12 @@ example : (initProxy [3, 4, 5] ⟨some (2, 1), 3, .i2⟩).WF := initProxy_wf _ _
 /-! ## Refinement of the documented model -/
 
 /-- One step: the implementation model produces exactly the documented model's output, and the
-    abstraction map (forget all arrays the image does not refer to) commutes with the step. -/
+    abstraction map (forget all arrays the image does not refer to) commutes with the step.
+    NOTE on what this buys: `Spec.step` lives in the same file as `step` and has the same case structure
+    (it is `step` with the heap replaced by "source + at most one array per cache"); the content of the
+    refinement is that the unbounded heap of arrays ever handed out is irrelevant — only the own array and
+    the cached arrays matter — not an independent re-derivation of the caching rules.  The caching rules
+    themselves are checked against doc/source/images_and_memory.rst by the Python `DocModel` oracle. -/
 theorem refines_doc_model_step {s : State} (h : s.WF) (op : Op) :
     (step s op).2 = (Spec.step (abs s) op).2 ∧ abs (step s op).1 = (Spec.step (abs s) op).1 :=
   ⟨(sim_step h op).2, (sim_step h op).1⟩
@@ -38,7 +44,7 @@ theorem refines_doc_model {s : State} (h : s.WF) (ops : List Op) :
 
 -- the documented model's initial states are the abstractions of the constructors' states
 example : abs (initProxy [3, 4, 5] ⟨some (2, 1), 3, .i2⟩) =
-    { img := .proxy [3, 4, 5] ⟨.i2, 2, 1⟩, fcache := none, dcache := none, next := 0, last := none,
+    { img := .proxy [3, 4, 5] ⟨.i2, 2, 1, {}⟩, fcache := none, dcache := none, next := 0, last := none,
       imgHdr := ⟨none, 3, .i2⟩, origHdr := ⟨some (2, 1), 3, .i2⟩ } := by decide
 example : abs (initArray ⟨.f8, [3, 4], false⟩ ⟨none, 2, .f8⟩) =
     { img := .array (0, ⟨.f8, [3, 4], false⟩), fcache := none, dcache := none, next := 1, last := none,
@@ -105,16 +111,18 @@ theorem source_never_changes (s : State) (ops : List Op) : (run s ops).img = s.i
     not hit the cache (cache empty, or holding another dtype), `np.asarray(dataobj)`, a proxy slice and
     a `get_data` with empty legacy cache each return a NEW array (identity = current heap size, see
     `fresh_identity_is_new`) holding exactly the file's values scaled with the parameters the header
-    had at construction — no earlier edit of any returned array is visible. -/
-theorem uncached_reflects_file (raw : List Int) (h : Hdr) (ops : List Op) (c : Caching) (d : DT)
+    had at construction — no earlier edit of any returned array is visible.  `io` = the proxy's `mmap`
+    argument, kind of file and storage byte order: they only decide whether the new array is a read-only
+    memory map (`Par.readRO`, `Par.sliceRO`), never its identity or values. -/
+theorem uncached_reflects_file (raw : List Int) (h : Hdr) (io : IOp) (ops : List Op) (c : Caching) (d : DT)
     (hc : c ≠ .other) (hd : d ≠ .i2) (sl : PySlice) (hz : sl.stepVal ≠ 0) :
-    let s := run (initProxy raw h) ops
-    let p := Par.ofHdr h
+    let s := run (initProxy raw h io) ops
+    let p := Par.ofHdr h io
     ((s.fcache = none ∨ ∃ i, s.fcache = some i ∧ (s.get i).dt ≠ d) →
-        (step s (.getFdata c d)).2.res = .arr s.heap.length ⟨d, p.scaled raw, false⟩) ∧
-    (step s .asarray).2.res = .arr s.heap.length ⟨p.outDt, p.scaled raw, false⟩ ∧
+        (step s (.getFdata c d)).2.res = .arr s.heap.length ⟨d, p.scaled raw, p.readRO (some d)⟩) ∧
+    (step s .asarray).2.res = .arr s.heap.length ⟨p.outDt, p.scaled raw, p.readRO none⟩ ∧
     (step s (.slice sl)).2.res = .arr s.heap.length ⟨p.outDt, sl.apply (p.scaled raw), p.sliceRO sl raw.length⟩ ∧
-    (s.dcache = none → (step s (.getData c)).2.res = .arr s.heap.length ⟨p.outDt, p.scaled raw, false⟩) := by
+    (s.dcache = none → (step s (.getData c)).2.res = .arr s.heap.length ⟨p.outDt, p.scaled raw, p.readRO none⟩) := by
   intro s p
   have hi : s.img = .proxy raw p := run_img _ ops
   exact ⟨fun hm => miss_proxy hi c d hc hd ((fhit_none_iff s d).mpr hm), asarray_proxy hi,
@@ -224,8 +232,8 @@ theorem in_memory_iff (s : State) (pre : List Op) (op : Op) :
   exact this
 
 /-- The same for the states themselves (proxy image from its constructor: not in memory initially). -/
-theorem in_memory_history (raw : List Int) (h : Hdr) (ops : List Op) :
-    (run (initProxy raw h) ops).inMemory = filled false ops := by
+theorem in_memory_history (raw : List Int) (h : Hdr) (io : IOp) (ops : List Op) :
+    (run (initProxy raw h io) ops).inMemory = filled false ops := by
   rw [run_inMemory]; rfl
 
 example : filled false [.getFdata .fill .f4, .uncache, .getFdata .unchanged .f8] = false ∧
@@ -235,13 +243,19 @@ example : filled false [.getFdata .fill .f4, .uncache, .getFdata .unchanged .f8]
 
 /-- What the image returns (all outputs of the non-header ops: identities, dtypes, values,
     in_memory) is the same as if the header edits — on `img.header` or on the header object the image
-    was built from — had not happened at all. -/
+    was built from — had not happened at all.
+    (Glue at this level: in the flat `State` the proxy's `Par` and the two headers are separate values and
+    `step` never reads the headers, so this holds by construction.  The statement with content is
+    `proxy_owns_its_parameters` below, over the object-level model in which the proxy MAY alias a header
+    object; this lemma is what it reduces to.) -/
 theorem proxy_ignores_header_edits (s : State) (ops : List Op) :
     dataTrace s ops = trace s (ops.filter (fun o => !o.isHdr)) :=
   dataTrace_eq_filter s ops
 
 /-- … and does not depend on the current contents of either header object: after construction the
-    proxy uses only the parameters it copied (`Par.ofHdr`, frozen by `source_never_changes`). -/
+    proxy uses only the parameters it copied (`Par.ofHdr`, frozen by `source_never_changes`).
+    (Glue, true by construction of the flat `State`; see `frozen_ignores_header_cells` for the
+    object-level statement.) -/
 theorem proxy_ignores_header_values (s : State) (a b : Hdr) (ops : List Op) :
     dataTrace (s.withHdrs a b) ops = dataTrace s ops :=
   dataTrace_withHdrs s a b ops
@@ -252,5 +266,167 @@ example : (initProxy [3] ⟨some (2, 1), 1, .i2⟩).withHdrs ⟨none, 7, .f8⟩ 
 example : dataTrace (initProxy [3, 4] ⟨some (2, 1), 2, .i2⟩)
       [.hdr .orig (.scale 3 5), .getFdata .fill .f8, .hdr .img (.dtype .f4), .hdr .orig (.shape 1), .asarray]
     = [⟨.arr 0 ⟨.f8, [7, 9], false⟩, true⟩, ⟨.arr 1 ⟨.f8, [7, 9], false⟩, true⟩] := by decide
+
+/-! ## Header OBJECTS: who aliases whom (object-level model `RState` / `rstep`)
+
+In `State` the proxy's parameters and the two headers are separate *values*, so the two theorems above hold
+by construction.  `RState` has a heap of header objects; the proxy's parameters are either a copy
+(`PSrc.copy`) or a reference to a header cell read on every access (`PSrc.ref`); `img.header` and the
+caller's header are cell indices that may coincide.  `Copies` says which of the three defensive copies the
+construction code makes (`Copies.code`: all three — `ArrayProxy.__init__`, `from_file_map`'s
+`header.copy()`, `FileBasedImage.__init__`'s `from_header`).  The driver runs THIS model, built by
+`rinitFileMap / rinitCtor / rinitArray Copies.code`. -/
+
+/-- (Glue — unfolds the constructors.)  With all three copies made, the object-level constructors yield
+    exactly the flat initial states, with `img.header` and the caller's header two distinct objects. -/
+theorem code_constructors_flat (raw : List Int) (a : Arr) (h : Hdr) (io : IOp) :
+    ((rinitFileMap .code raw h io).view = initProxy raw h io ∧ (rinitFileMap .code raw h io).Sep ∧
+      (rinitFileMap .code raw h io).Frozen) ∧
+    ((rinitCtor .code raw h io).view = initProxy raw h io ∧ (rinitCtor .code raw h io).Sep ∧
+      (rinitCtor .code raw h io).Frozen) ∧
+    ((rinitArray .code a h).view = initArray a h ∧ (rinitArray .code a h).Sep ∧
+      (rinitArray .code a h).Frozen) :=
+  ⟨⟨(rinitFileMap_code raw h io).1, (rinitFileMap_code raw h io).2, rinitFileMap_frozen _ rfl raw h io⟩,
+   ⟨(rinitCtor_code raw h io).1, (rinitCtor_code raw h io).2, rinitCtor_frozen _ rfl raw h io⟩,
+   ⟨(rinitArray_code a h).1, (rinitArray_code a h).2, rinitArray_frozen _ a h⟩⟩
+
+/-- Whenever the proxy owns a copy of its parameters and `img.header` is not the caller's header object,
+    the object-level model is step for step the flat model (outputs and states), for every history
+    including header edits: every theorem of this file about `step/run/trace` holds of `rstep/rrun/rtrace`. -/
+theorem ref_model_refines_flat {r : RState} (hf : r.Frozen) (hs : r.Sep) (ops : List Op) :
+    rtrace r ops = trace r.view ops ∧ (rrun r ops).view = run r.view ops ∧
+    (rrun r ops).Frozen ∧ (rrun r ops).img = r.img :=
+  ⟨(rrun_flat hf hs ops).1, (rrun_flat hf hs ops).2, rrun_frozen hf ops, rrun_img r ops⟩
+
+example : (rinitCtor .code [3, 4] ⟨some (2, 1), 2, .i2⟩).Frozen ∧ (rinitCtor .code [3, 4] ⟨some (2, 1), 2, .i2⟩).Sep :=
+  ⟨rinitCtor_frozen _ rfl _ _ _, (rinitCtor_code _ _ _).2⟩
+
+/-- What the code's constructors give, for every history: the documented model's trace. -/
+theorem code_images_follow_doc_model (raw : List Int) (a : Arr) (h : Hdr) (io : IOp) (ops : List Op) :
+    rtrace (rinitFileMap .code raw h io) ops = Spec.trace (abs (initProxy raw h io)) ops ∧
+    rtrace (rinitCtor .code raw h io) ops = Spec.trace (abs (initProxy raw h io)) ops ∧
+    rtrace (rinitArray .code a h) ops = Spec.trace (abs (initArray a h)) ops := by
+  have c := code_constructors_flat raw a h io
+  refine ⟨?_, ?_, ?_⟩
+  · rw [(rrun_flat c.1.2.2 c.1.2.1 ops).1, c.1.1, (sim_run (initProxy_wf raw h io) ops).1]
+  · rw [(rrun_flat c.2.1.2.2 c.2.1.2.1 ops).1, c.2.1.1, (sim_run (initProxy_wf raw h io) ops).1]
+  · rw [(rrun_flat c.2.2.2.2 c.2.2.2.1 ops).1, c.2.2.1, (sim_run (initArray_wf a h) ops).1]
+
+/-- THE independence statement at object level.  If `ArrayProxy.__init__` copies its parameters
+    (`k.proxy`), then — whether or not `from_file_map` copies the header first and whether or not the image
+    keeps its own header copy, i.e. even when `img.header`, the caller's header and the header the proxy
+    was built from are ONE object — everything the image returns (identities, dtypes, values,
+    writeability, in_memory of all non-header ops) under any history with arbitrary edits of
+    `img.header` / the caller's header equals what the flat model returns for the history with the header
+    edits deleted. -/
+theorem proxy_owns_its_parameters (k : Copies) (hk : k.proxy = true) (raw : List Int) (h : Hdr) (io : IOp)
+    (ops : List Op) :
+    rdataTrace (rinitFileMap k raw h io) ops = trace (initProxy raw h io) (ops.filter (fun o => !o.isHdr)) ∧
+    rdataTrace (rinitCtor k raw h io) ops = trace (initProxy raw h io) (ops.filter (fun o => !o.isHdr)) := by
+  obtain ⟨a1, b1, h1⟩ := rinitFileMap_view k hk raw h io
+  obtain ⟨a2, b2, h2⟩ := rinitCtor_view k hk raw h io
+  exact ⟨by rw [rdataTrace_flat (rinitFileMap_frozen k hk raw h io) _ a1 b1 h1 ops, dataTrace_eq_filter],
+         by rw [rdataTrace_flat (rinitCtor_frozen k hk raw h io) _ a2 b2 h2 ops, dataTrace_eq_filter]⟩
+
+example : (⟨true, false, false⟩ : Copies).proxy = true ∧
+    (rinitFileMap ⟨true, false, false⟩ [3] ⟨some (2, 1), 1, .i2⟩).imgCell
+      = (rinitFileMap ⟨true, false, false⟩ [3] ⟨some (2, 1), 1, .i2⟩).origCell := by decide
+
+/-- An array image never looks at any header object. -/
+theorem array_image_ignores_header_objects (k : Copies) (a : Arr) (h : Hdr) (ops : List Op) :
+    rdataTrace (rinitArray k a h) ops = trace (initArray a h) (ops.filter (fun o => !o.isHdr)) := by
+  obtain ⟨x, y, h1⟩ := rinitArray_view k a h
+  rw [rdataTrace_flat (rinitArray_frozen k a h) _ x y h1 ops, dataTrace_eq_filter]
+
+/-- … and for ANY object-level state whose proxy owns its parameters, replacing the contents of ALL header
+    objects by anything else changes nothing the image returns. -/
+theorem frozen_ignores_header_cells {r : RState} (hf : r.Frozen) (cells' : List Hdr) (ops : List Op) :
+    rdataTrace { r with cells := cells' } ops = rdataTrace r ops := by
+  have hf' : ({ r with cells := cells' } : RState).Frozen := fun raw c => hf raw c
+  rw [rdataTrace_flat hf' r.view _ _ (view_cells_frozen hf cells') ops,
+      rdataTrace_flat hf r.view r.view.imgHdr r.view.origHdr (withHdrs_self _).symm ops]
+
+example : ({ rinitCtor .code [3] ⟨some (2, 1), 1, .i2⟩ with cells := [⟨some (5, 5), 4, .f4⟩] } : RState)
+    ≠ rinitCtor .code [3] ⟨some (2, 1), 1, .i2⟩ := by decide
+
+/-- The aliasing variants are NOT independent (so the statements above say something): if
+    `ArrayProxy.__init__` kept a reference to its `spec` header instead of copying,
+    (1) `ArrayProxy(f, hdr); Nifti1Image(proxy, None, hdr)` followed by `hdr.set_slope_inter(3, 5)` changes
+        the next read ([11, 14] → [14, 17] for raw [3, 4] · 2 + 1);
+    (2) the same through `from_file_map` and `img._load_cache['header']`;
+    (3) if moreover the image kept the caller's header object instead of a copy, constructing the image
+        (which resets slope/inter on its header, analyze.py:915) already strips the scaling from the data
+        ([7, 9] becomes [3, 4]) without any edit. -/
+theorem aliasing_proxy_counterexample :
+    rdataTrace (rinitCtor ⟨false, true, true⟩ [3, 4] ⟨some (2, 1), 2, .i2⟩) [.hdr .orig (.scale 3 5), .asarray]
+      ≠ rdataTrace (rinitCtor ⟨false, true, true⟩ [3, 4] ⟨some (2, 1), 2, .i2⟩) [.asarray] ∧
+    rdataTrace (rinitFileMap ⟨false, true, true⟩ [3, 4] ⟨some (2, 1), 2, .i2⟩) [.hdr .orig (.scale 3 5), .asarray]
+      ≠ rdataTrace (rinitFileMap ⟨false, true, true⟩ [3, 4] ⟨some (2, 1), 2, .i2⟩) [.asarray] ∧
+    rdataTrace (rinitCtor ⟨false, true, false⟩ [3, 4] ⟨some (2, 1), 2, .i2⟩) [.asarray]
+      ≠ rdataTrace (rinitCtor .code [3, 4] ⟨some (2, 1), 2, .i2⟩) [.asarray] := by decide
+
+/-- `img.header` is a copy: as long as it and the caller's header are different objects, an edit of one
+    is not seen through the other (and the reported pair is the flat model's). -/
+theorem image_header_is_a_copy {r : RState} (hs : r.Sep) (e : HEdit) :
+    cellGet (rstep r (.hdr .orig e)).1.cells r.imgCell = cellGet r.cells r.imgCell ∧
+    cellGet (rstep r (.hdr .orig e)).1.cells r.origCell = e.apply (cellGet r.cells r.origCell) ∧
+    cellGet (rstep r (.hdr .img e)).1.cells r.origCell = cellGet r.cells r.origCell ∧
+    cellGet (rstep r (.hdr .img e)).1.cells r.imgCell = e.apply (cellGet r.cells r.imgCell) :=
+  ⟨cellGet_modify_ne _ _ _ _ (Ne.symm hs.2.2), cellGet_modify_same _ _ _ hs.2.1,
+   cellGet_modify_ne _ _ _ _ hs.2.2, cellGet_modify_same _ _ _ hs.1⟩
+
+/-- Without `from_header`'s copy (filebasedimages.py:188) the caller's header loses its scaling when the
+    image is constructed and later edits of it show up in `img.header`. -/
+theorem shared_image_header_counterexample :
+    cellGet (rinitCtor ⟨true, true, false⟩ [3] ⟨some (2, 1), 1, .i2⟩).cells 0 = ⟨none, 1, .i2⟩ ∧
+    (rstep (rinitCtor ⟨true, true, false⟩ [3] ⟨some (2, 1), 1, .i2⟩) (.hdr .orig (.scale 3 5))).2.res
+      = .hdrs ⟨some (3, 5), 1, .i2⟩ ⟨some (3, 5), 1, .i2⟩ ∧
+    (rstep (rinitCtor .code [3] ⟨some (2, 1), 1, .i2⟩) (.hdr .orig (.scale 3 5))).2.res
+      = .hdrs ⟨none, 1, .i2⟩ ⟨some (3, 5), 1, .i2⟩ := by decide
+
+/-! ## Read-only memory maps (`mmap='r'`) -/
+
+/-- The decision rule for "a whole-array read hands out a read-only array", spelled out: the proxy was
+    given `mmap='r'` AND its file is an uncompressed file on disk AND the header scaling is (1, 0) (or
+    absent) AND the read converts nothing (no dtype asked, or the storage dtype in the machine's byte
+    order).  `mmap=True` means `'c'` (copy-on-write): never read-only. -/
+theorem readonly_read_iff (p : Par) (d : Option DT) :
+    p.readRO d = true ↔
+      (p.io.mmap = .r ∧ p.io.file = .path ∧ p.slope = 1 ∧ p.inter = 0 ∧
+        (d = none ∨ (d = some p.dt ∧ p.io.swapped = false))) := by
+  rcases p with ⟨dt, sl, it, ⟨mm, fk, sw⟩⟩
+  cases mm <;> cases fk <;> cases sw <;> cases d <;>
+    simp [Par.readRO, IOp.roMap, IOp.mapMode, and_assoc]
+
+example : (Par.ofHdr ⟨none, 2, .f4⟩ ⟨.r, .path, false⟩).readRO (some .f4) = true ∧
+    (Par.ofHdr ⟨none, 2, .f4⟩ ⟨.r, .path, true⟩).readRO (some .f4) = false ∧
+    (Par.ofHdr ⟨none, 2, .f4⟩ ⟨.on, .path, false⟩).readRO none = false ∧
+    (Par.ofHdr ⟨some (2, 1), 2, .f4⟩ ⟨.r, .path, false⟩).readRO none = false ∧
+    (Par.ofHdr ⟨none, 2, .f4⟩ ⟨.r, .pathGz, false⟩).readRO none = false := by decide
+
+/-- An attempted in-place edit of a read-only array (NumPy refuses it) leaves the WHOLE state unchanged —
+    in particular a read-only memory map that `get_fdata` cached keeps showing the file. -/
+theorem readonly_edit_is_noop (s : State) (k : Nat) (hro : (s.get k).ro = true) :
+    (step s (.edit k)).1 = s := by
+  simp only [step, editAt]
+  split
+  · rename_i hk
+    simp only [retRes]
+    have hb : s.heap.modify k bump = s.heap := by
+      apply List.ext_getElem?
+      intro j
+      rw [List.getElem?_modify]
+      by_cases hkj : k = j
+      · subst hkj
+        have hget : s.get k = s.heap[k] := by simp [State.get, hk]
+        rw [hget] at hro
+        simp [hk, bump, hro]
+      · simp [hkj]
+    rw [hb]
+  · rfl
+
+example : let s := run (initProxy [3, 4] ⟨none, 2, .f4⟩ ⟨.r, .path, false⟩) [.getFdata .fill .f4]
+    (s.get 0).ro = true ∧ s.fcache = some 0 ∧
+    (step (step s (.edit 0)).1 (.getFdata .unchanged .f4)).2.res = .arr 0 ⟨.f4, [3, 4], true⟩ := by decide
 
 end Nb.C13
